@@ -10,7 +10,7 @@ import (
 )
 
 func init() {
-	register("C16", "Structural clauses of copy's include/exclude handling, decided on all paths of copier.copy, copyDirectory and createParentDirs: after an include miss or an exclude hit no creating, destructive or metadata call is reachable for the entry (copyDirectory with include=false creates nothing and reports created=false); deferred ancestors are created (checked) before any content; an ancestor created on demand receives the source directory's file info and xattrs and is marked copied; include and exclude match infos are never crossed, including the positional arguments of the recursion; matchers are built with patternmatcher.New from the caller's lists and queried with MatchesUsingParentResults like the walk. A source directory is always descended, whatever the verdicts (no pruning by pattern text). Does not decide equality of the copied set with the reference filter.", runC16)
+	register("C16", "Structural clauses of copy's include/exclude handling, decided on all paths of copier.copy, copyDirectory and createParentDirs: after an include miss or an exclude hit no creating, destructive or metadata call is reachable for the entry (copyDirectory with include=false creates nothing and reports created=false); deferred ancestors are created (checked) before any content; an ancestor created on demand receives the source directory's file info and xattrs and is marked copied; include and exclude match infos are never crossed, including the positional arguments of the recursion; matchers are built with patternmatcher.New from the caller's lists and queried with MatchesUsingParentResults like the walk. A source directory is always descended, whatever the verdicts (no pruning by pattern text). Metadata and xattrs of an ancestor created on demand are taken from the ancestor's source path in the callee's source position. Does not decide equality of the copied set with the reference filter.", runC16)
 }
 
 func runC16(c *Ctx) {
@@ -273,6 +273,23 @@ func r16_3(c *Ctx, rule string) {
 			for _, a := range call.Common().Args {
 				if isFieldLoad(a, "copy.parentDir.srcPath") {
 					srcOK = true
+				}
+			}
+			// ... in the position of the callee's source parameter, the
+			// destination path in that of its target parameter
+			if f := call.Common().StaticCallee(); f != nil && len(f.Params) == len(call.Common().Args) {
+				for i, q := range f.Params {
+					a := call.Common().Args[i]
+					switch q.Name() {
+					case "src":
+						if !isFieldLoad(a, "copy.parentDir.srcPath") {
+							srcOK = false
+						}
+					case "dst", "name", "target":
+						if isFieldLoad(a, "copy.parentDir.srcPath") {
+							srcOK = false
+						}
+					}
 				}
 			}
 			c.R.Check(srcOK, rule, c.siteName(call)+"/from-source-dir", c.pos(call), "taken from the ancestor's source path", e.what+" for an ancestor is not taken from that ancestor's source directory")
